@@ -21,6 +21,16 @@ import multiprocessing as mp
 from . import core
 
 NPROC = int(os.environ.get('VERIF_NPROC', '16'))
+# stages every property shares (its own functions under concurrent calls / after call histories): added to the property's
+# FOUNDATIONS here rather than listed in every module; they yield cases only for properties they know (KERNELS)
+COMMON_STAGES = ['harness.foundation.concurrent', 'harness.foundation.soak']
+
+
+def foundations_of(mod):
+    out = list(getattr(mod, 'FOUNDATIONS', []))
+    if not getattr(mod, 'NO_COMMON_STAGES', False):
+        out += [f for f in COMMON_STAGES if f not in out]
+    return out
 
 
 def _raised_in_mahotas(tb) -> bool:
@@ -196,7 +206,7 @@ def run_property(modname: str, tier: str, seed: int, replay: str | None = None) 
     pid = mod.ID
     src = core.stage_build()
     ftargets, fthms = [], {}
-    for fname in getattr(mod, 'FOUNDATIONS', []):
+    for fname in foundations_of(mod):
         fmod = importlib.import_module(fname)
         if hasattr(fmod, 'for_property'):
             fmod.for_property(pid)      # a foundation serving several properties narrows LEAN_TARGETS / THEOREMS / cases() to this one
@@ -238,7 +248,7 @@ def run_property(modname: str, tier: str, seed: int, replay: str | None = None) 
     results = evaluate_parallel(mod, cases)
     # shared foundations this property's model rests on (e.g. the filter-iterator closed form F6):
     # their correspondence runs are part of the tie; a disagreement is a 'model' finding
-    for fname in getattr(mod, 'FOUNDATIONS', []):
+    for fname in foundations_of(mod):
         fmod = importlib.import_module(fname)
         if hasattr(fmod, 'for_property'):
             fmod.for_property(pid)
